@@ -9,6 +9,7 @@
 -/
 import Abnf.FlagLemmas
 import Abnf.RefAgree
+import Abnf.Theorems.C02
 namespace Abnf.C11
 
 /-- **The engine computes the reference semantics**, first-match flags and exclusions included. -/
@@ -25,6 +26,32 @@ theorem ends_are_reference (G : Grammar) (hG : GBoundsOk G) (f : Nat) (s : Src) 
   · intro hf
     rw [hf] at h
     exact h
+
+/-- **`parse` on ANY grammar** - first-match flags and exclusions included, whatever the order in which the match set is
+iterated: the end it returns is a member of the reference set and no member is greater; it raises ParseError exactly when the
+engine found nothing, and then the reference set is empty.  (C02's statement relative to the documented semantics of C11; on
+grammars without flags and exclusions the reference set is the set of RFC 5234 derivable ends: `C02.parse_is_max_of_derivable`.) -/
+theorem parse_is_max_of_reference (G : Grammar) (hG : GBoundsOk G) (f : Nat) (s : Src) (r i : Nat)
+    (hi : i ≤ s.length) (perm : List Match → List Match) (hp : SameMembers perm) :
+    (∀ t j, parseWith perm G f s r i = .ok t j →
+      ∃ js, refEnds G f s (.ref r) i = .ok js ∧ j ∈ js ∧ ∀ j' ∈ js, j' ≤ j) ∧
+    (parseWith perm G f s r i = .fail → refEnds G f s (.ref r) i = .ok []) := by
+  obtain ⟨c1, c2⟩ := ends_are_reference G hG f s r i
+  constructor
+  · intro t j h
+    cases hl : lparse G f s (.ref r) i with
+    | oof => simp [parseWith, hl, pickWith] at h
+    | gerr => simp [parseWith, hl, pickWith] at h
+    | fail => simp [parseWith, hl, pickWith] at h
+    | ok out =>
+      obtain ⟨t', j', hpj, hj, hmax, _⟩ := C02.parse_returns_longest G hG f s r i hi perm hp out hl
+      rw [h] at hpj
+      simp only [PRes.ok.injEq] at hpj
+      obtain ⟨rfl, rfl⟩ := hpj
+      obtain ⟨js, hjs, _, hmem⟩ := c1 out hl
+      exact ⟨js, hjs, (hmem j).mpr hj, fun j' hj' => hmax j' ((hmem j').mp hj')⟩
+  · intro h
+    exact c2 ((C02.parse_fails_iff_no_match G hG f s r i hi perm hp).1.mp h)
 
 /-- `Rule.first_match_alternation = b`: writes the flag of the rule's top-level alternation only
 (a definition that is not an alternation is left alone) -/
